@@ -133,6 +133,7 @@ fn real_main() {
                 None => println!("no violation on the current tree"),
             }
         }
+        Some("jobs") => checks::print_jobs(),
         Some("smoke") => {
             let n: u64 = args.get(2).and_then(|s| s.parse().ok()).unwrap_or(2);
             let steps: usize = args.get(3).and_then(|s| s.parse().ok()).unwrap_or(10);
